@@ -122,6 +122,9 @@ func (obj Octets) Adjust(dims []int, eType Symbol, initVal Object, initContent L
 	if eType != OctetSymbol {
 		TypePanic(NewScope(), 0, ":element-type", eType, "octet")
 	}
+	if dims[0] < 0 || ArrayMaxDimension < dims[0] {
+		TypePanic(NewScope(), 0, "dimension", Fixnum(dims[0]), "non-negative fixnum no larger than array-dimension-limit")
+	}
 	var iv byte
 	if initVal != nil {
 		if num, ok := initVal.(Integer); ok && num.IsInt64() && 0 <= num.Int64() && num.Int64() < 256 {
